@@ -4,11 +4,14 @@ Import ListNotations.
 From Verif Require Import BatchRPC.Model BatchRPC.Proofs BatchRPC.Proofs2.
 
 (* ---------------------------------------------------------------- how one step can change one entry *)
+(* error kinds that only the caller itself produces (its context / its timer) *)
+Definition own_only (k : errk) : bool := match k with ECtx | ETimeout => true | _ => false end.
+
 Inductive etrans : entry -> entry -> Prop :=
 | T_submit h : etrans entry0 (mkEntry h Queued [] false None)
 | T_st e st : (st = Retired \/ (exists i, st = Built i /\ e_st e = Queued /\ e_canceled e = false)
                \/ (exists i, st = Stored i /\ e_st e = Built i)) -> etrans e (set_st e st)
-| T_err e k : etrans e (complete e (Err k))
+| T_err e k : own_only k = false -> etrans e (complete e (Err k))
 | T_resp e p : e_canceled e = false -> etrans e (complete e (Resp p))
 | T_abort e k : e_ret e = None -> etrans e (mkEntry (e_host e) (e_st e) (e_comp e) true (Some (Err k)))
 | T_return e r : e_ret e = None -> etrans e (mkEntry (e_host e) (e_st e) (e_comp e) (e_canceled e) (Some r)).
@@ -31,13 +34,13 @@ Proof.
     apply upd_etrans. apply T_st. right; left. exists i. auto.
   - destruct (e_st (ent s c)); try discriminate. destruct (e_canceled (ent s c)); try discriminate. inv_some. simpl.
     apply upd_etrans. unfold retire. apply T_st. now left.
-  - destruct (e_st (ent s c)); try discriminate. inv_some. simpl. apply upd_etrans. constructor.
+  - destruct (e_st (ent s c)); try discriminate. inv_some. simpl. apply upd_etrans. constructor; reflexivity.
   - destruct (e_st (ent s c)); try discriminate.
-    + destruct (e_canceled (ent s c)); try discriminate. inv_some. simpl. apply upd_etrans. constructor.
-    + inv_some. simpl. apply upd_etrans. constructor.
+    + destruct (e_canceled (ent s c)); try discriminate. inv_some. simpl. apply upd_etrans. constructor; reflexivity.
+    + inv_some. simpl. apply upd_etrans. constructor; reflexivity.
   - destruct (e_st (ent s c)) eqn:ES; try discriminate. inv_some. simpl. apply upd_etrans. apply T_st. right; right. exists i; auto.
   - destruct (e_st (ent s c)); try discriminate.
-    destruct (loaded_on (loops s (e_host (ent s c))) i); try discriminate. inv_some. simpl. apply upd_etrans. constructor.
+    destruct (loaded_on (loops s (e_host (ent s c))) i); try discriminate. inv_some. simpl. apply upd_etrans. constructor; reflexivity.
   - destruct (loops s h); try discriminate. destruct (lookup i (tab s)).
     + destruct (Nat.eqb (e_host (ent s c)) h && match lookup i (alloc s) with Some c' => Nat.eqb p c' | None => true end); try discriminate.
       inv_some. now left.
@@ -51,7 +54,7 @@ Proof.
     destruct (fail_pending_spec _ _ _ _ _ (tab_callers_nodup s I) EF) as (A & B & C).
     destruct (in_dec Nat.eq_dec c0 (map snd (tab s))) as [Hin|Hn]; [|left; apply C; tauto].
     destruct (Nat.eq_dec (e_host (ent s c0)) h) as [E|N]; [|left; apply C; tauto].
-    right. rewrite B; auto. constructor.
+    right. rewrite B; auto. constructor; reflexivity.
   - assert (H' : (if is_abort_kind k && match k with EClosed => closed s | _ => true end
                   then Some (with_ent s (upd (ent s) c (mkEntry (e_host (ent s c)) (e_st (ent s c)) (e_comp (ent s c)) true (Some (Err k)))))
                   else None) = Some s' /\ e_ret (ent s c) = None).
@@ -66,9 +69,9 @@ Proof.
   - destruct (loops s h); try discriminate; inv_some; now left.
   - destruct (loops s h); try discriminate. destruct (closed s); try discriminate. inv_some. now left.
   - destruct (e_st (ent s c)); try discriminate.
-    destruct (closed s && negb (loaded_on (loops s (e_host (ent s c))) i)); try discriminate. inv_some. simpl. apply upd_etrans. constructor.
-  - destruct (e_st (ent s c)); try discriminate. destruct (closed s); try discriminate. inv_some. simpl. apply upd_etrans. constructor.
-  - destruct (e_st (ent s c)); try discriminate. inv_some. simpl. apply upd_etrans. constructor.
+    destruct (closed s && negb (loaded_on (loops s (e_host (ent s c))) i)); try discriminate. inv_some. simpl. apply upd_etrans. constructor; reflexivity.
+  - destruct (e_st (ent s c)); try discriminate. destruct (closed s); try discriminate. inv_some. simpl. apply upd_etrans. constructor; reflexivity.
+  - destruct (e_st (ent s c)); try discriminate. inv_some. simpl. apply upd_etrans. constructor; reflexivity.
 Qed.
 
 Lemma etrans_ret_stable : forall e e' r, etrans e e' -> e_ret e = Some r -> e_ret e' = Some r.
